@@ -59,6 +59,10 @@ func (e *Engine) instantiate(assumps []*Term, goal *Term, facts []*QFact) []*Ter
 				if tg.t.Base != nil {
 					inst = c.Sub(inst, tg.t.Base)
 				}
+				if tg.t.Coef > 1 {
+					// any instance of a universal fact is sound; this one makes the trigger term match
+					inst = c.UDiv(inst, c.Const(64, tg.t.Coef))
+				}
 				key := fmt.Sprintf("%p/%d", tg.f, inst.ID)
 				if done[key] {
 					continue
@@ -292,7 +296,7 @@ func (e *Engine) Solve(o *Oblig, opts SolveOpts, stats *SolveStats, prep *sync.M
 				for _, f := range o.Facts {
 					nf := &QFact{Bound: f.Bound, Body: e.C.Rebuild(f.Body, sub)}
 					for _, tg := range f.Trig {
-						nt := Trigger{Arr: e.C.Rebuild(tg.Arr, sub)}
+						nt := Trigger{Arr: e.C.Rebuild(tg.Arr, sub), Coef: tg.Coef}
 						if tg.Base != nil {
 							nt.Base = e.C.Rebuild(tg.Base, sub)
 						}
